@@ -96,12 +96,12 @@ IsDigit(b) == b >= 48 /\ b <= 57
 \* occurrences of the separator byte c.
 NoSpaces(s) == SelectSeq(s, LAMBDA b : b # 32)
 SepStarts(s, c) == {i \in 1..Len(s) : s[i] = c}
-Ranges(s, lo, hi, c) ==
-  LET st == {i \in SepStarts(s, c) : i >= lo /\ i <= hi}
-      k == Cardinality(st)
-      nth(j) == CHOOSE i \in st : Cardinality({y \in st : y < i}) = j - 1
-  IN [j \in 1..(k + 1) |-> [lo |-> IF j = 1 THEN lo ELSE nth(j - 1) + 1,
-                             hi |-> IF j = k + 1 THEN hi ELSE nth(j) - 1]]
+LOCAL SQR == INSTANCE SequencesExt
+Ranges(s, lo, hi, c) ==       \* the maximal runs of s[lo..hi] between occurrences of the byte c (one pass)
+  LET step(acc, i) == IF s[i] = c THEN [done |-> Append(acc.done, [lo |-> acc.start, hi |-> i - 1]), start |-> i + 1]
+                      ELSE acc
+      r == SQR!FoldLeft(step, [done |-> <<>>, start |-> lo], [k \in 1..(IF hi >= lo THEN hi - lo + 1 ELSE 0) |-> lo + k - 1])
+  IN Append(r.done, [lo |-> r.start, hi |-> hi])
 
 \* a product term s[lo..hi]: "0", "1", or literals  [!]x<digits>  in sequence
 LitStarts(s, lo, hi) == {i \in lo..hi : s[i] = 120}
